@@ -31,6 +31,7 @@ type Engine struct {
 	// immutable globals: never stored to outside their package's init
 	globalStores map[*ssa.Global]int
 	sentinelErrs map[*ssa.Global]bool
+	globalInit   map[*ssa.Global]ssa.Value
 	LoadSeconds  float64
 	DynCallHook  DynHook
 	Nondet       map[string]bool
@@ -40,7 +41,7 @@ type Engine struct {
 // builds SSA for them and all dependencies.
 func Load(repoDir, verifDir string, patterns ...string) (*Engine, error) {
 	e := &Engine{RepoDir: repoDir, VerifDir: verifDir, Funcs: map[string]*ssa.Function{}, srcCache: map[string][]byte{},
-		Nondet: map[string]bool{}, AllPkgs: map[string]*packages.Package{}, globalStores: map[*ssa.Global]int{}, sentinelErrs: map[*ssa.Global]bool{}}
+		Nondet: map[string]bool{}, AllPkgs: map[string]*packages.Package{}, globalStores: map[*ssa.Global]int{}, sentinelErrs: map[*ssa.Global]bool{}, globalInit: map[*ssa.Global]ssa.Value{}}
 	env := append(os.Environ(), "GOFLAGS=-mod=mod", "GOPROXY=off", "GOSUMDB=off", "GOTOOLCHAIN=local")
 	cfg := &packages.Config{Mode: packages.LoadAllSyntax, Dir: repoDir, BuildFlags: []string{"-tags=verif"}, Env: env}
 	pkgs, err := packages.Load(cfg, patterns...)
@@ -179,6 +180,7 @@ func (e *Engine) scanGlobals() {
 					continue
 				}
 				if isInit && fn.Pkg == g.Pkg {
+					e.globalInit[g] = st.Val
 					if c, ok := st.Val.(*ssa.Call); ok {
 						if sc := c.Call.StaticCallee(); sc != nil && sc.Pkg != nil && sc.Pkg.Pkg.Path() == "errors" && sc.Name() == "New" {
 							e.sentinelErrs[g] = true
